@@ -202,6 +202,8 @@ pub enum IdRef {
     SnapVersion(u8),
     /// a deterministic id made by the harness
     Fresh(u32),
+    /// a concrete id (never generated; used when a history is projected onto one client)
+    Literal(Uuid),
 }
 
 #[derive(Clone, Debug, Serialize, Deserialize, PartialEq, Eq, Hash)]
